@@ -9,6 +9,7 @@ import (
 	"os"
 	"path/filepath"
 	"sort"
+	"sync"
 	"time"
 
 	logging "github.com/ipfs/go-log/v2"
@@ -32,6 +33,9 @@ type primaryGC struct {
 	updateIndex UpdateIndexFunc
 	visited     map[uint32]struct{}
 	reclaimed   int64
+	// cycleLk serializes GC cycles: the periodic cycle and cycles requested
+	// through MultihashPrimary.GC share the fields above and the files.
+	cycleLk sync.Mutex
 }
 
 // UpdateIndexFunc re-points the index entry of a key from the location of a
@@ -113,6 +117,9 @@ func (gc *primaryGC) run(interval, timeLimit time.Duration) {
 // gc searches for and removes stale primary files. Returns the number of bytes
 // of storage reclaimed.
 func (gc *primaryGC) gc(ctx context.Context, lowUsePercent int64, timeLimit time.Duration) (int64, error) {
+	gc.cycleLk.Lock()
+	defer gc.cycleLk.Unlock()
+
 	gc.reclaimed = 0
 	vhook.Point("pgc.begin")
 	affectedSet, err := processFreeList(ctx, gc.freeList, gc.primary.basePath, gc.primary.maxFileSize)
